@@ -775,6 +775,47 @@ def client_sender_hooks(E):
 
 
 
+@harness('c11.cancel_if_task_exists', ['C11', 'C17', 'C15'], functions=['rsocket/helpers.py::cancel_if_task_exists'],
+         assumptions=['asyncio task model: cancel() on a pending task requests cancellation; the task then ends by CancelledError, by an '
+                      'exception of its own clean-up, or normally (it may swallow the cancellation)'])
+def cancel_if_task_exists_contract(E):
+    """What _stop_tasks / close / reconnect rely on: when it returns, the task is no longer running (so nothing of the old
+    connection runs concurrently with what is set up next), whatever way the task ended, and nothing escapes."""
+    E.import_module('asyncio')
+    kind = E.path.choice(3, 'task')              # none / already finished / still running
+    task = None if kind == 0 else aio.new_task(E, None)
+    if kind == 1:
+        task.attrs['state'] = ['result', 'cancelled', 'exception'][E.path.choice(3, 'finished-how')]
+        if task.attrs['state'] == 'exception':
+            task.attrs['value'] = E.make_exc('ValueError', 'old failure')
+    ends = E.path.choice(3, 'ends-by') if kind == 2 else None
+    waited = []
+
+    def on_suspend(E_, what):
+        k, obj = what
+        if k == 'future' and obj is task:
+            waited.append(obj.attrs['cancel_requested'])
+            if ends == 0:
+                obj.attrs['state'] = 'cancelled'
+            elif ends == 1:
+                obj.attrs['state'], obj.attrs['value'] = 'exception', E_.make_exc('RuntimeError', 'clean-up failed')
+            else:
+                obj.attrs['state'], obj.attrs['value'] = 'result', None
+        return None
+    E.suspend_hook = on_suspend
+    try:
+        E.await_value(E.call(E.lookup('rsocket/helpers.py::cancel_if_task_exists'), [task]))
+    except PyExc as e:
+        E.prove('cancel_if_task_exists:nothing_escapes[%s]' % e.value.cls.name, False)
+        return
+    E.cover('returned')
+    if kind == 2:
+        E.prove('cancel_if_task_exists:a_running_task_is_asked_to_cancel_and_then_waited_for', waited == [True])
+        E.prove('cancel_if_task_exists:returns_only_after_the_task_has_ended', task.attrs['state'] != 'pending')
+    else:
+        E.prove('cancel_if_task_exists:no_task_or_a_finished_one_is_left_alone', not waited and (task is None or task.attrs['cancel_requested'] is False))
+
+
 @harness('c14.connect_subscribes_lease_publisher', ['C14', 'C16'], functions=[BASE + '.connect', BASE + '._subscribe_to_lease_publisher',
                                                                          BASE + '.LeaseSubscriber.__init__'])
 def connect_lease_subscription(E):
